@@ -18,6 +18,9 @@ RULE = (
     "exception from Engine.to_executable, the database (plain SQLite grammar, no shim), iteration.Engine.execute or "
     "full iteration of the result, is a violation.  Non-trivial = >= 2 operations and fully executed; distinct = "
     "engine x program skeleton."
+    "  One case in ten ends in an operation whose expression uses a function that exists in one engine kind only "
+    "(Engine.functions), alone or nested in/around portable functions: construction may refuse it (EngineError) "
+    "but whatever it accepts has to execute. "
 )
 ASSUMPTIONS = [
     "SQLite 3 stands in for 'the target database'; no grammar shim is installed for this check",
